@@ -30,6 +30,8 @@ UNITS = [
     [['gram', 1], ['cm', -3]],
     [['metre', 2], ['second', -1], ['volt', -1]],
     [['kelvin', 1]],
+    # compound units that are dimensionally a pure ratio but carry a scale factor (the unit must still be printed)
+    [['gram', 1], ['kg', -1]], [['cm', 1], ['metre', -1]], [['mM', 1], ['molar', -1]], [['cm', 3], ['dm', -3]], [['uM', 1], ['mM', -1]],
 ]
 
 # (own unit, requested unit, requested-per-own as an exact fraction); None = no `unit=` argument
@@ -40,7 +42,8 @@ CONVERSIONS = [
     ([['metre', 1], ['second', -1]], [['kilometre', 1], ['hour', -1]], F(36, 10)),
     ([['kg', 1]], [['gram', 1]], F(1000)), ([['gram', 1], ['cm', -3]], [['kg', 1], ['metre', -3]], F(1000)),
     ([['molar', 1]], [['mol', 1], ['metre', -3]], F(1000)), ([['second', 1]], [['hour', 1]], F(1, 3600)),
-    ([['molar', -1], ['second', -1]], None, F(1)), ([['joule', 1], ['mol', -1]], [['kilojoule', 1], ['mol', -1]], F(1, 1000)),
+    ([['molar', -1], ['second', -1]], None, F(1)), ([['gram', 1], ['kg', -1]], None, F(1)),
+    ([['cm', 1], ['metre', -1]], [['metre', 1], ['kilometre', -1]], F(10)), ([['mM', 1], ['molar', -1]], [['uM', 1], ['molar', -1]], F(1000)), ([['joule', 1], ['mol', -1]], [['kilojoule', 1], ['mol', -1]], F(1, 1000)),
 ]
 
 CONV_SCALE = {json.dumps([own, to]): sc for own, to, sc in CONVERSIONS if to is not None}
@@ -364,6 +367,8 @@ class C20(Property):
         'templates; the mark-up is read back by the oracle only)',
         'fmt given as a callable: the text the callback returns is an opaque input (callback_text_spec proves what _number_to_X does with any such text); '
         'that Python calls fmt(mag) / fmt(mag, uncertainty) with the unitless magnitude is decided by correspondence and oracle (11 + 5 callbacks incl. malformed texts)',
+        'is_unitless / dimensional simplification of ratio units (g/kg, cm/m, mM/M): the unit text is opaque in the model; that a scaled ratio unit is '
+        'still printed is decided by correspondence and by the oracle (text after the number must be the unit of the quantity)',
         'numbers carrying .uncertainty other than quantities.UncertainQuantity; -0.0, inf, nan; callback texts with blanks/underscores in the exponent (Python int() accepts them, the model refuses)',
         'Reaction printing: the reaction text before the parameter, dimensionality printers, parameters that are rate-expression objects with their '
         'own string method (only quantity / float / int / str / None parameters are exercised)',
@@ -413,7 +418,7 @@ class C20(Property):
         mirror is compared on every case, the exact model additionally where `uncert_modelled` holds, the oracle (with float slack) always."""
         for _ in range(200):
             x = self._float(rng)
-            p = rng.choice([1, 1, 2, 2, 2, 3, 4, 5, 6])
+            p = rng.choice([1, 1, 2, 2, 2, 3, 4, 5, 6, 8, 9, 10])
             r = rng.random()
             if r < 0.55:
                 rel = 10.0 ** rng.uniform(-8, math.log10(0.5))
@@ -471,6 +476,27 @@ class C20(Property):
             for p in (1, 3, 4, 5, 6):
                 cases.append({'op': 'fmt_g', 'p': p, 'xf': float(x).hex()})
                 cases.append({'op': 'number_to_x', 'fmt': FMTS[(p + int(abs(x))) % 3], 'p': p, 'xf': float(x).hex(), 'unit': None})
+        # in-domain but beyond double precision: 9-10 uncertainty digits at 1e-8..1e-6 relative => nominal integers of 16-19 digits (> 2^53);
+        # only the float-faithful mirror and the oracle-with-slack can be right here
+        for _ in range(12):
+            x = rng.uniform(1, 9.99) * 10.0 ** rng.randint(-20, 20)
+            xe = abs(x) * 10.0 ** rng.uniform(-8, -6)
+            pp = rng.choice([8, 9, 10])
+            cases.append({'op': 'float_str_w_uncert', 'xf': x.hex(), 'xef': xe.hex(), 'p': pp})
+            cases.append({'op': 'number_to_x_uncert', 'fmt': rng.choice(FMTS), 'p': pp, 'xf': (-x).hex(), 'xef': xe.hex(), 'unit': rng.choice([None, rng.choice(UNITS)])})
+        # falsy / carried uncertainties: `uncertainty or getattr(number, "uncertainty", None)`
+        for explicit in (None, 'zero_int', 'zero_float', 'zero_qty', 'value'):
+            for carried in (None, 'zero', 'value'):
+                for fmt in FMTS:
+                    p_any = rng.choice([None, 0, 1, 2, 3])
+                    while True:     # this op is compared with the EXACT model only: keep the non-zero uncertainties away from float near-ties
+                        x, xe = rng.choice([(3.1416, 0.029), (1.234567, 0.0012), (12345.678, 9.6), (2.5e-7, 3.1e-9), (6.02214e23, 2.7e18)])
+                        if all(uncert_modelled(x, e, 2 if p_any is None else p_any) for e in (xe, xe * 1.37)):
+                            break
+                    unit = rng.choice(UNITS) if (carried is not None or explicit == 'zero_qty' or rng.random() < 0.5) else None
+                    cases.append({'op': 'number_to_x_any', 'fmt': fmt, 'p': p_any, 'xf': float(x).hex(),
+                                  'explicit': explicit if explicit != 'value' else float(xe).hex(),
+                                  'carried': None if carried is None else ((0.0).hex() if carried == 'zero' else float(xe * 1.37).hex()), 'unit': unit})
         # `fmt` given as a callback (with / without uncertainty, with / without unit, every renderer, well-formed and malformed texts)
         for name in CALLBACKS:
             for x in (1e5, 3.14159e-7, -2.5, 1.0004e5, 12345.678):
@@ -694,6 +720,15 @@ class C20(Property):
                 m['mode'] = 'both'
                 m['exact'] = uncert_modelled(mag, um, 2 if c['p'] is None else c['p'])
             return m
+        if op == 'number_to_x_any':
+            from chempy.units import to_unitless
+            number, unc, unit = self._any_args(c)
+            mag = float(to_unitless(number, unit)) if unit is not None else number
+            ex = c['explicit']
+            carried = None if c['carried'] is None else ratio(fx(c['carried']))
+            return {'op': 'number_to_x_any', 'fmt': c['fmt'], 'p': c['p'], 'x': ratio(mag), 'case': c,
+                    'explicit': None if ex is None else (0 if ex.startswith('zero') else ratio(fx(ex))), 'carried': carried,
+                    'unit': self._unit_text(c['fmt'], unit) if unit is not None else None}
         if op == 'number_to_x_cb':
             from chempy.units import to_unitless
             number, unc, _to, printed = self._x_args(c)
@@ -756,6 +791,10 @@ class C20(Property):
                 return f(number, unc, to, m['p'])
             if op == 'float_str_w_uncert':
                 return N._float_str_w_uncert(fx(m['xf']), fx(m['xef']), m['p'])
+            if op == 'number_to_x_any':
+                c0 = m['case']
+                number, unc, _unit = self._any_args(c0)
+                return getattr(N, 'number_to_scientific_' + c0['fmt'])(number, unc, None, c0['p'])
             if op == 'number_to_x_cb':
                 c0 = m['case']
                 f = getattr(N, 'number_to_scientific_' + c0['fmt'])
@@ -785,6 +824,28 @@ class C20(Property):
             return len(parts) == 2 and parts[1] == io and (parts[0] == io or not m.get('exact'))
         return io == mo
 
+    def _any_args(self, c):
+        """(number, uncertainty argument, unit | None) for a falsy/carried-uncertainty case"""
+        x = fx(c['xf'])
+        unit = make_unit(c['unit']) if c['unit'] is not None else None
+        if c['carried'] is not None:
+            import quantities as pq
+            number = pq.UncertainQuantity(x, unit, fx(c['carried']))
+        else:
+            number = x * unit if unit is not None else x
+        ex = c['explicit']
+        if ex is None:
+            unc = None
+        elif ex == 'zero_int':
+            unc = 0
+        elif ex == 'zero_float':
+            unc = 0.0
+        elif ex == 'zero_qty':
+            unc = 0.0 * unit
+        else:
+            unc = fx(ex) * unit if unit is not None else fx(ex)
+        return number, unc, unit
+
     def _x_args(self, c):
         """(number, uncertainty argument, unit argument, unit the text is printed in | None) of the real call for a case"""
         x = fx(c['xf'])
@@ -813,6 +874,23 @@ class C20(Property):
             if read_roman(s) != n:
                 return 'roman(%d) = %r reads back as %d' % (n, s, read_roman(s))
             return None
+        if op == 'number_to_x_any':
+            f = getattr(N, 'number_to_scientific_' + c['fmt'])
+            number, unc, unit = self._any_args(c)
+            x = fx(c['xf'])
+            ex, ca = c['explicit'], c['carried']
+            eff = fx(ex) if (ex is not None and not ex.startswith('zero')) else (fx(ca) if ca is not None else None)   # non-zero explicit wins
+            suffix = '' if unit is None else ('\\,' if c['fmt'] == 'latex' else ' ') + self._unit_text(c['fmt'], unit)
+            try:
+                text = f(number, unc, None, c['p'])
+            except Exception as ex_:
+                if eff == 0 and isinstance(ex_, ValueError):
+                    return None       # an uncertainty of exactly zero has no last kept digit: the refusal is the documented behaviour
+                return 'number_to_scientific_%s(%r, %r, fmt=%r) raised %s' % (c['fmt'], number, unc, c['p'], exc_name(ex_))
+            if eff is None or eff == 0:
+                # no (or a zero) uncertainty: the plain form must denote the value to the requested significant digits
+                return check_number_text(c['fmt'], text, x, 5 if c['p'] is None else max(c['p'], 1), suffix)
+            return check_uncert_text(c['fmt'], text, x, eff, 2 if c['p'] is None else c['p'], suffix)
         if op == 'number_to_x_cb':
             from chempy.units import to_unitless
             f = getattr(N, 'number_to_scientific_' + c['fmt'])
@@ -977,6 +1055,9 @@ class C20(Property):
             return '%s:%s%s' % (op, c['fmt'], ':unit' if c.get('unit') else '')
         if op == 'reaction_line':
             return 'reaction_line:%s:%s' % (c['printer'], c['kind'])
+        if op == 'number_to_x_any':
+            return 'number_to_x_any:explicit=%s:carried=%s' % ('value' if c['explicit'] and not c['explicit'].startswith('zero') else c['explicit'],
+                                                              None if c['carried'] is None else ('zero' if fx(c['carried']) == 0 else 'value'))
         if op == 'number_to_x_cb':
             return 'number_to_x_cb:%s:%s%s' % ('unc' if 'xef' in c else 'plain', c['cb'], ':unit' if c.get('unit') else '')
         if op == 'html_table':
